@@ -51,6 +51,22 @@ func privJ(x any) any {
 	return toJ(v, true)
 }
 
+// nilJ reports, for every slice-typed top-level field of a struct, whether it is nil (the dumps render nil and
+// empty slices alike; some encoders - clientHelloMsg.marshal for quic_transport_parameters - do not treat them alike).
+func nilJ(x any) map[string]any {
+	m := map[string]any{}
+	v := deref(x)
+	if !v.IsValid() || v.Kind() != reflect.Struct {
+		return m
+	}
+	for i := 0; i < v.NumField(); i++ {
+		if v.Field(i).Kind() == reflect.Slice {
+			m[v.Type().Field(i).Name] = v.Field(i).IsNil()
+		}
+	}
+	return m
+}
+
 func bytesN(n int, salt byte) []byte {
 	b := make([]byte, n)
 	for i := range b {
@@ -87,7 +103,7 @@ func init() {
 			j := jobs[i]
 			empty := map[string]any{}
 			ev := map[string]any{"ev": "CH", "id": j.id, "raw": []int{}, "m": []int{}, "privA": empty, "privB": empty, "pub": empty, "pub2": empty,
-				"m2": []int{}, "pub3": empty, "m3": []int{}, "err": ""}
+				"m2": []int{}, "pub3": empty, "m3": []int{}, "err": "", "nils": empty}
 			res[i] = ev
 			defer func() {
 				if p := recover(); p != nil {
@@ -135,7 +151,10 @@ func chBundle(ev map[string]any, raw []byte) {
 	}
 	ev["privA"], ev["privB"] = privJ(a), privJ(b)
 	ev["pub"] = pubJ(p)
-	ev["pub2"] = pubJ(tls.VerifClientHelloPubRoundTrip(p))
+	p2 := tls.VerifClientHelloPubRoundTrip(p)
+	ev["pub2"] = pubJ(p2)
+	nils := map[string]any{"privA": nilJ(a), "privB": nilJ(b), "pub": nilJ(p), "pub2": nilJ(p2), "pub3": map[string]any{}}
+	ev["nils"] = nils
 	p.Raw = nil
 	m2, err := p.Marshal()
 	if err != nil {
@@ -149,6 +168,7 @@ func chBundle(ev map[string]any, raw []byte) {
 		return
 	}
 	ev["pub3"] = pubJ(p3)
+	nils["pub3"] = nilJ(p3)
 	p3.Raw = nil
 	m3, err := p3.Marshal()
 	if err != nil {
@@ -161,7 +181,7 @@ func chBundle(ev map[string]any, raw []byte) {
 func newCHEvent(id string) map[string]any {
 	empty := map[string]any{}
 	return map[string]any{"ev": "CH", "id": id, "raw": []int{}, "m": []int{}, "privA": empty, "privB": empty, "pub": empty, "pub2": empty,
-		"m2": []int{}, "pub3": empty, "m3": []int{}, "err": ""}
+		"m2": []int{}, "pub3": empty, "m3": []int{}, "err": "", "nils": empty}
 }
 
 // pubhelloraw: {"scns":[{"f": {...}, "raw": [bytes]}]} -> the same bundle as pubhello for ClientHellos whose bytes were
